@@ -1,0 +1,26 @@
+//go:build verif
+
+package ordered
+
+// VerifSlots exposes the internal representation of m (slots in storage
+// order, tombstone flags, and the key index) for conformance checking against
+// an external model. It only exists when built with the "verif" build tag and
+// never mutates m.
+func VerifSlots[K comparable, V any](m *Map[K, V]) (keys []K, vals []V, deleted []bool, index map[K]int, isNil bool) {
+	if m == nil {
+		return nil, nil, nil, nil, true
+	}
+	keys = make([]K, len(m.items))
+	vals = make([]V, len(m.items))
+	deleted = make([]bool, len(m.items))
+	for i, it := range m.items {
+		keys[i], vals[i], deleted[i] = it.Key, it.Value, it.deleted
+	}
+	if m.index != nil {
+		index = make(map[K]int, len(m.index))
+		for k, i := range m.index {
+			index[k] = i
+		}
+	}
+	return keys, vals, deleted, index, false
+}
